@@ -8,6 +8,7 @@
 package main
 
 import (
+	"bytes"
 	"context"
 	"encoding/json"
 	"errors"
@@ -16,6 +17,9 @@ import (
 	"io"
 	"net"
 	"os"
+	"os/exec"
+	"strconv"
+	"strings"
 	"sync"
 	"syscall"
 	"time"
@@ -57,6 +61,41 @@ type tcase struct {
 	Greet []int   `json:"greet"` // nil: the peer did not look
 	Rec   *rec    `json:"rec"`
 	Tries int     `json:"tries"`
+	// end-to-end: run this sx binary (`sx socks -p PORT IP --json -t <tdata>ms`) instead of calling Scan;
+	// obs is then 0 (a record was printed) or 1 (none), tdial is ignored (the CLI has one --timeout)
+	E2E    string `json:"e2e,omitempty"`
+	Stderr string `json:"stderr,omitempty"`
+}
+
+// cliProbe runs the real command line.
+type cliProbe struct {
+	bin     string
+	timeout int
+	stderr  string
+}
+
+func (p *cliProbe) Scan(ctx context.Context, r *scan.Request) (scan.Result, error) {
+	cmd := exec.CommandContext(ctx, p.bin, "socks", "-p", strconv.Itoa(int(r.DstPort)), r.DstIP.String()+"/32",
+		"--json", "-t", fmt.Sprintf("%dms", p.timeout), "--exit-delay", "20ms")
+	var so, se bytes.Buffer
+	cmd.Stdout, cmd.Stderr = &so, &se
+	err := cmd.Run()
+	p.stderr = se.String()
+	if len(p.stderr) > 300 {
+		p.stderr = p.stderr[len(p.stderr)-300:]
+	}
+	if err != nil {
+		return nil, err
+	}
+	line := strings.TrimSpace(so.String())
+	if line == "" {
+		return nil, nil
+	}
+	var res socks5.ScanResult
+	if err := json.Unmarshal([]byte(strings.Split(line, "\n")[0]), &res); err != nil {
+		return nil, fmt.Errorf("unparsable output %q", line)
+	}
+	return &res, nil
 }
 
 const (
@@ -321,7 +360,14 @@ func runCase(c *tcase) {
 		socks5.WithDialTimeout(time.Duration(c.TDial) * time.Millisecond),
 		socks5.WithDataTimeout(time.Duration(c.TData) * time.Millisecond),
 	}
-	s := socks5.NewScanner(opts...)
+	var s interface {
+		Scan(context.Context, *scan.Request) (scan.Result, error)
+	} = socks5.NewScanner(opts...)
+	var cli *cliProbe
+	if c.E2E != "" {
+		cli = &cliProbe{bin: c.E2E, timeout: c.TData}
+		s = cli
+	}
 	ctx, cancel := context.WithCancel(context.Background())
 	defer cancel()
 	req := &scan.Request{DstIP: ip, DstPort: uint16(c.Port)}
@@ -345,6 +391,9 @@ func runCase(c *tcase) {
 	}()
 	// watchdog: far beyond any bound the property allows
 	limit := time.Duration(maxInt(c.TDial, 0)+3*maxInt(c.TData, 0))*time.Millisecond + 1500*time.Millisecond
+	if c.E2E != "" {
+		limit = 4*time.Duration(maxInt(c.TData, 0))*time.Millisecond + 4*time.Second
+	}
 	if c.Cancel > 0 {
 		limit = time.Duration(c.Cancel)*time.Millisecond + 1500*time.Millisecond
 	}
@@ -377,6 +426,9 @@ func runCase(c *tcase) {
 		}
 	}
 	c.Greet = greet
+	if cli != nil {
+		c.Stderr = cli.stderr
+	}
 	if o.res != nil {
 		if r, ok := o.res.(*socks5.ScanResult); ok {
 			c.Rec = &rec{IP: r.IP, Port: int(r.Port), Version: r.Version, Scan: r.ScanType}
@@ -504,6 +556,7 @@ func main() {
 	nsample := flag.Int("sample", 200, "number of sampled two-byte replies besides the 5x / x0 families")
 	all := flag.Bool("all", false, "all 65536 two-byte replies instead of the sample")
 	par := flag.Int("par", 48, "probes in flight")
+	e2e := flag.String("e2e", "", "path of an sx binary: add end-to-end cases through the command line")
 	replay := flag.String("replay", "", "JSON file with a list of cases to run again (inputs are taken, observations overwritten)")
 	flag.Parse()
 
@@ -541,6 +594,23 @@ func main() {
 			}
 		}
 		g.faults(*nfault)
+		if *e2e != "" {
+			for k := 0; k < 2; k++ {
+				for _, c := range []*tcase{
+					g.add("e2e:reply-05-00", "accept", 0, 250, -1, true, send(5, 5, 0)),
+					g.add("e2e:reply-05-00-split", "accept", 0, 250, -1, k == 0, send(5, 5), send(40, 0, 7, 7)),
+					g.add("e2e:reply-05-02", "accept", 0, 250, -1, true, send(5, 5, 2)),
+					g.add("e2e:reply-04-00", "accept", 0, 250, -1, true, send(5, 4, 0)),
+					g.add("e2e:one-byte-close", "accept", 0, 250, -1, true, send(5, 5), action{Delay: 20, Kind: "close"}),
+					g.add("e2e:accept-stall", "accept", 0, 250+50*k, -1, true),
+					g.add("e2e:one-byte-stall", "accept", 0, 250+50*k, -1, true, send(5, 5)),
+					g.add("e2e:never-accepts", "blackhole", 0, 250+50*k, -1, false),
+					g.add("e2e:refused", "refuse", 0, 250, -1, false),
+				} {
+					c.E2E = *e2e
+				}
+			}
+		}
 	}
 
 	// warm-up: the first probes of a process see scheduling delays of tens of milliseconds while the
